@@ -156,12 +156,13 @@ theorem mul1InvVec_spec (m : M1) (a b n x y : Nat) (h : MRel m x y a b) (ha : a 
 
 /-! ### mpn_hgcd_matrix_adjust -/
 
-/-- mpn_hgcd_matrix_adjust.  The limbs from p on of (a; b) hold (s; t) = M⁻¹(S; T) for the high parts
+/-- mpn_hgcd_matrix_adjust (stated with a bound B^k of the diagonal entries, p + k ≤ n, instead of M->n).
+    The limbs from p on of (a; b) hold (s; t) = M⁻¹(S; T) for the high parts
     (S; T) of the original numbers (`hr`), M's off-diagonal entries do not exceed s resp. t (what the hgcd
     size contract gives), and p + M->n ≤ n.  Then the result is EXACTLY M⁻¹ of the full original numbers
     (B^p·S + a mod B^p; B^p·T + b mod B^p): the C's `ASSERT (cy <= ah)` / `ASSERT (cy <= bh)` hold, the new
     size bounds both numbers and differs from n by at most one; explicit lower bounds for the results. -/
-theorem matAdjust_spec (M : HM) (n a b p S T : Nat) (hf : M.Fits) (hpn : p + M.n ≤ n)
+theorem matAdjust_spec (M : HM) (n a b p S T k : Nat) (hpn : p + k ≤ n) (f00 : M.e00 < B ^ k) (f11 : M.e11 < B ^ k)
     (ha : a < B ^ n) (hb : b < B ^ n) (hn : 1 ≤ n)
     (hr : MRel M.toM1 (a / B ^ p) (b / B ^ p) S T) (h01 : M.e01 ≤ a / B ^ p) (h10 : M.e10 ≤ b / B ^ p) :
     MRel M.toM1 (matAdjust M n a b p).2.1 (matAdjust M n a b p).2.2 (B ^ p * S + a % B ^ p) (B ^ p * T + b % B ^ p) ∧
@@ -170,7 +171,6 @@ theorem matAdjust_spec (M : HM) (n a b p S T : Nat) (hf : M.Fits) (hpn : p + M.n
     (n ≤ (matAdjust M n a b p).1 → B ^ ((matAdjust M n a b p).1 - 1) ≤ (matAdjust M n a b p).2.1 ∨
         B ^ ((matAdjust M n a b p).1 - 1) ≤ (matAdjust M n a b p).2.2) ∧
     B ^ p * (a / B ^ p - M.e01) ≤ (matAdjust M n a b p).2.1 ∧ B ^ p * (b / B ^ p - M.e10) ≤ (matAdjust M n a b p).2.2 := by
-  obtain ⟨f00, f01, f10, f11⟩ := hf
   have hpp : 0 < B ^ p := pow_pos B_pos _
   have hal : a % B ^ p < B ^ p := Nat.mod_lt _ hpp
   have hbl : b % B ^ p < B ^ p := Nat.mod_lt _ hpp
@@ -178,12 +178,12 @@ theorem matAdjust_spec (M : HM) (n a b p S T : Nat) (hf : M.Fits) (hpn : p + M.n
   simp only [HM.toM1] at ex ey lx ly
   have hsplit_a : B ^ p * (a / B ^ p) ≤ a := Nat.mul_div_le a (B ^ p)
   have hsplit_b : B ^ p * (b / B ^ p) ≤ b := Nat.mul_div_le b (B ^ p)
-  have hPM : B ^ (p + M.n) ≤ B ^ n := Nat.pow_le_pow_right B_pos hpn
-  have hPM' : B ^ (p + M.n) = B ^ M.n * B ^ p := by rw [pow_add, Nat.mul_comm]
+  have hPM : B ^ (p + k) ≤ B ^ n := Nat.pow_le_pow_right B_pos hpn
+  have hPM' : B ^ (p + k) = B ^ k * B ^ p := by rw [pow_add, Nat.mul_comm]
   have hB2 : 2 ≤ B := by rw [B_eq]; norm_num
   have hS : 2 * B ^ n ≤ B ^ (n + 1) := by rw [pow_succ, Nat.mul_comm]; exact Nat.mul_le_mul_left _ hB2
-  have t11 : M.e11 * (a % B ^ p) < B ^ (p + M.n) := by rw [hPM']; exact Nat.mul_lt_mul'' f11 hal
-  have t00 : M.e00 * (b % B ^ p) < B ^ (p + M.n) := by rw [hPM']; exact Nat.mul_lt_mul'' f00 hbl
+  have t11 : M.e11 * (a % B ^ p) < B ^ (p + k) := by rw [hPM']; exact Nat.mul_lt_mul'' f11 hal
+  have t00 : M.e00 * (b % B ^ p) < B ^ (p + k) := by rw [hPM']; exact Nat.mul_lt_mul'' f00 hbl
   have hx2 : x < B ^ (n + 1) := by omega
   have hy2 : y < B ^ (n + 1) := by omega
   have e1 : (M.e11 * (a % B ^ p) + B ^ p * (a / B ^ p) + B ^ (n + 1) - M.e01 * (b % B ^ p)) % B ^ (n + 1) = x := by
